@@ -8,7 +8,7 @@ from ..common.outcome import Outcome, require
 ID = "C09"
 RULE = (
     "one fitted model of any of the four kinds (generators of C01/C15/C13: pre-computed tied matrices or feature data with a drawn metric; queries include exact copies of training samples) "
-    "followed by a HISTORY of 1..6 predict calls on batches drawn with repetition from the query pool (whole pool, single rows, permutations, duplicated rows; batch lengths up to n_train+3 so "
+    "followed by a HISTORY of 1..6 predict calls on batches drawn with repetition from the query pool (whole pool, single rows, permutations, duplicated rows; batch lengths up to n_train+3, occasionally 64..140 rows, so "
     "that the same sample occurs at batch positions both < n_train and >= n_train). Oracle: table sample (feature bytes / matrix row id) -> first observed (label[, cluster]); every later observation "
     "of the same sample must equal it exactly; node costs / labels / predecessors / features of the model are unchanged by the whole history. "
     "non-trivial: some sample was predicted at >= 2 different batch positions, one of them < n_train, and the model outputs >= 2 distinct labels/clusters; distinct by case hash"
@@ -30,7 +30,7 @@ def _case(draw, nmax):
     nq, nt = base["nq"], base["nt"]
     batches = []
     for _ in range(draw(st.integers(1, 6))):
-        kind = draw(st.sampled_from(["whole", "single", "perm", "random", "random", "long"]))
+        kind = draw(st.sampled_from(["whole", "single", "perm", "random", "random", "long", "verylong"]))
         if kind == "whole":
             b = list(range(nq))
         elif kind == "single":
@@ -39,6 +39,11 @@ def _case(draw, nmax):
             b = list(draw(st.permutations(list(range(nq)))))
         elif kind == "random":
             b = draw(st.lists(st.integers(0, nq - 1), min_size=1, max_size=nq + 2))
+        elif kind == "verylong":
+            # a large batch (vectorised "fast paths" typically switch on above some batch size)
+            reps = draw(st.integers(64, 140))
+            seq = draw(st.lists(st.integers(0, nq - 1), min_size=4, max_size=12))
+            b = [seq[i % len(seq)] for i in range(reps)]
         else:
             b = draw(st.lists(st.integers(0, nq - 1), min_size=nt + 1, max_size=nt + 3))
         batches.append(b)
